@@ -556,6 +556,7 @@ func c03(c *Ctx) {
 	}
 
 	ruleInsertCapacity(c, tx, "R1")
+	ruleInsertFront(c, tx, "R1")
 
 	defer c03Carriers(c, px)
 	c.Rule("R3", "E5 immutability (alias tracking)", "no method of TraceState writes through the receiver's list: element stores, append and copy destinations are rooted at fresh allocations", 4)
@@ -1597,4 +1598,284 @@ func errorIface() *types.Interface {
 func constInt64(k *types.Const) int64 {
 	v, _ := constant.Int64Val(constant.ToInt(k.Val()))
 	return v
+}
+
+// ruleInsertFront: "the new or updated list-member is always moved to the beginning": every successful return of Insert hands
+// back a TraceState whose list starts with the member built from (key, value) — a literal whose first element it is, or a
+// fresh value/slice into whose index 0 (or first append) it was stored on every way to the return. Handing back the receiver
+// is right only where it is known to start with that very member already (first key equals key, value equals value).
+func ruleInsertFront(c *Ctx, tx *PkgIndex, rule string) {
+	fn := tx.Func("TraceState.Insert")
+	fList := lookupField(tx.Pkg, "TraceState", "list")
+	if fn == nil || fList == nil {
+		return
+	}
+	info := tx.Pkg.TypesInfo
+	sig := fn.Obj.Type().(*types.Signature)
+	if sig.Params().Len() != 2 || sig.Results().Len() != 2 {
+		return
+	}
+	keyP, valP := sig.Params().At(0), sig.Params().At(1)
+	g := tx.FG(fn)
+	fromKV := func(call *ast.CallExpr) bool {
+		k, v := false, false
+		for _, a := range call.Args {
+			k = k || sameVar(info, a, keyP)
+			v = v || sameVar(info, a, valP)
+		}
+		return k && v
+	}
+	var isNew func(e ast.Expr, d int) bool
+	isNew = func(e ast.Expr, d int) bool {
+		e = unparen(e)
+		switch x := e.(type) {
+		case *ast.CompositeLit:
+			k, v := false, false
+			for _, el := range x.Elts {
+				if kv, ok := el.(*ast.KeyValueExpr); ok {
+					el = kv.Value
+				}
+				k = k || sameVar(info, el, keyP)
+				v = v || sameVar(info, el, valP)
+			}
+			return k && v
+		case *ast.CallExpr:
+			return fromKV(x)
+		case *ast.Ident:
+			o := info.Uses[x]
+			if o == nil || d > 3 {
+				return false
+			}
+			if def := g.LocalDef(o); def != nil {
+				return isNew(def, d+1)
+			}
+			if td, has := g.tupleDefs()[o]; has && td.i == 0 {
+				return fromKV(td.call)
+			}
+		}
+		return false
+	}
+	isZero := func(e ast.Expr) bool { v, ok := constInt(info, e); return ok && v == 0 }
+	// frontStores(path): vertices after which the slice denoted by path starts with the new member
+	frontStores := func(isSlice func(ast.Expr) bool) map[*GNode]bool {
+		appends := g.Match(func(n ast.Node) bool {
+			as, ok := n.(*ast.AssignStmt)
+			if !ok || len(as.Lhs) != 1 || len(as.Rhs) != 1 || !isSlice(as.Lhs[0]) {
+				return false
+			}
+			call, isC := unparen(as.Rhs[0]).(*ast.CallExpr)
+			return isC && builtinName(info, call) == "append"
+		})
+		out := map[*GNode]bool{}
+		for _, x := range g.Nodes {
+			as, ok := x.N.(*ast.AssignStmt)
+			if !ok || len(as.Lhs) != 1 || len(as.Rhs) != 1 {
+				continue
+			}
+			if ie, isIx := unparen(as.Lhs[0]).(*ast.IndexExpr); isIx && isSlice(ie.X) && isZero(ie.Index) && isNew(as.Rhs[0], 0) {
+				out[x] = true
+				continue
+			}
+			if !isSlice(as.Lhs[0]) {
+				continue
+			}
+			switch r := unparen(as.Rhs[0]).(type) {
+			case *ast.CompositeLit:
+				if len(r.Elts) >= 1 && isNew(r.Elts[0], 0) {
+					out[x] = true
+				}
+			case *ast.CallExpr:
+				if builtinName(info, r) == "append" && len(r.Args) >= 2 && isNew(r.Args[1], 0) {
+					// the first append into an empty slice: no other append comes before it, and what it extends is empty
+					first := true
+					for _, a := range appends {
+						if a == x {
+							continue
+						}
+						if s, _ := g.Reach([]*GNode{a}, nil, nil); s[x] {
+							first = false
+						}
+					}
+					base := unparen(r.Args[0])
+					empty := false
+					if cl, isCL := base.(*ast.CompositeLit); isCL && len(cl.Elts) == 0 {
+						empty = true
+					}
+					if mk, isMk := base.(*ast.CallExpr); isMk && builtinName(info, mk) == "make" && len(mk.Args) >= 2 && isZero(mk.Args[1]) {
+						empty = true
+					}
+					if isSlice(base) {
+						// extends itself: empty when its only earlier definition is an empty make/literal or the zero value
+						empty = true
+						for _, y := range g.Nodes {
+							as2, ok2 := y.N.(*ast.AssignStmt)
+							if !ok2 || y == x || len(as2.Lhs) != len(as2.Rhs) {
+								continue
+							}
+							for i, l := range as2.Lhs {
+								if !isSlice(l) {
+									continue
+								}
+								d := unparen(as2.Rhs[i])
+								okDef := false
+								if cl, isCL := d.(*ast.CompositeLit); isCL && len(cl.Elts) == 0 {
+									okDef = true
+								}
+								if mk, isMk := d.(*ast.CallExpr); isMk && builtinName(info, mk) == "make" && len(mk.Args) >= 2 && isZero(mk.Args[1]) {
+									okDef = true
+								}
+								if s, _ := g.Reach([]*GNode{y}, nil, nil); s[x] && !okDef {
+									empty = false
+								}
+							}
+						}
+					}
+					if first && empty {
+						out[x] = true
+					}
+				}
+			}
+		}
+		return out
+	}
+	n := 0
+	for _, x := range g.Nodes {
+		rs, ok := x.N.(*ast.ReturnStmt)
+		if !ok || len(rs.Results) != 2 {
+			continue
+		}
+		if id, isID := unparen(rs.Results[1]).(*ast.Ident); !isID || id.Name != "nil" {
+			continue
+		}
+		n++
+		key := "trace|TraceState.Insert|successful return #" + itoa(n) + " starts with the inserted member"
+		site := at(tx.M, rs.Pos())
+		msg := "Insert can succeed with a tracestate that does not start with the inserted list-member: the newest member is not moved to the front (vendors read their own entry left-most; truncation downstream drops from the right)"
+		// the list expression of the returned value
+		var listOf func(e ast.Expr, d int) (good, decided bool)
+		sliceFront := func(le ast.Expr) (bool, bool) {
+			le = unparen(le)
+			if cl, isCL := le.(*ast.CompositeLit); isCL {
+				return len(cl.Elts) >= 1 && isNew(cl.Elts[0], 0), true
+			}
+			if so := objOf(info, le); so != nil {
+				if _, isID := le.(*ast.Ident); isID && definedIn(info, fn.Body(), so) {
+					fs := frontStores(func(e ast.Expr) bool { id, isID := unparen(e).(*ast.Ident); return isID && info.ObjectOf(id) == so })
+					d, _ := g.DominatedByNodes(x, fs)
+					return d && len(fs) > 0, true
+				}
+			}
+			if call, isC := le.(*ast.CallExpr); isC && builtinName(info, call) == "append" && len(call.Args) >= 2 {
+				if cl, isCL := unparen(call.Args[0]).(*ast.CompositeLit); isCL {
+					if len(cl.Elts) >= 1 {
+						return isNew(cl.Elts[0], 0), true
+					}
+					return isNew(call.Args[1], 0), true
+				}
+				if mk, isMk := unparen(call.Args[0]).(*ast.CallExpr); isMk && builtinName(info, mk) == "make" && len(mk.Args) >= 2 && isZero(mk.Args[1]) {
+					return isNew(call.Args[1], 0), true
+				}
+			}
+			return false, false
+		}
+		listOf = func(e ast.Expr, d int) (bool, bool) {
+			e = unparen(e)
+			switch y := e.(type) {
+			case *ast.CompositeLit:
+				for _, el := range y.Elts {
+					if kv, isKV := el.(*ast.KeyValueExpr); isKV {
+						if fv, _ := info.Uses[kv.Key.(*ast.Ident)].(*types.Var); fv != nil && fv.Origin() == fList.Origin() {
+							return sliceFront(kv.Value)
+						}
+					}
+				}
+				return false, true // a literal without a list is empty
+			case *ast.Ident:
+				o := info.Uses[y]
+				if o == nil {
+					return false, false
+				}
+				if o == types.Object(fn.Recv()) {
+					// the receiver as it is: only where it is known to start with this very member
+					firstKey, sameVal := false, false
+					eq := func(cnd ast.Expr, pol int, pred func(l, r ast.Expr) bool) bool {
+						l, op, r, ok := cmpNorm(cnd, pol)
+						return ok && op == token.EQL && (pred(l, r) || pred(r, l))
+					}
+					d1, _ := g.DominatedByEdges(x, func(ed *GEdge) bool {
+						return g.edgeImpliesDeep(ed, func(cnd ast.Expr, pol int) bool {
+							return eq(cnd, pol, func(l, r ast.Expr) bool {
+								// ts.list[0].Key == key, or <index of the match> == 0
+								if sameVar(info, r, keyP) {
+									if se, isSel := unparen(l).(*ast.SelectorExpr); isSel && se.Sel.Name == "Key" {
+										if ie, isIx := unparen(se.X).(*ast.IndexExpr); isIx && isZero(ie.Index) && isField(info, ie.X, fList) {
+											return true
+										}
+									}
+								}
+								if isZero(r) {
+									if lo := objOf(info, l); lo != nil && definedIn(info, fn.Body(), lo) {
+										if b, isB := lo.Type().Underlying().(*types.Basic); isB && b.Info()&types.IsInteger != 0 {
+											return true
+										}
+									}
+								}
+								return false
+							})
+						})
+					})
+					firstKey = d1
+					d2, _ := g.DominatedByEdges(x, func(ed *GEdge) bool {
+						return g.edgeImpliesDeep(ed, func(cnd ast.Expr, pol int) bool {
+							return eq(cnd, pol, func(l, r ast.Expr) bool {
+								if !sameVar(info, r, valP) {
+									return false
+								}
+								se, isSel := unparen(l).(*ast.SelectorExpr)
+								return isSel && se.Sel.Name == "Value"
+							})
+						})
+					})
+					sameVal = d2
+					return firstKey && sameVal, true
+				}
+				if !definedIn(info, fn.Body(), o) || d > 2 {
+					return false, false
+				}
+				// a local TraceState: its list field starts with the new member on every way here
+				fs := frontStores(func(e ast.Expr) bool {
+					if !isField(info, e, fList) {
+						return false
+					}
+					_, base := fieldOf(info, e)
+					return base != nil && objOf(info, base) == o
+				})
+				// … or it was defined by a literal that does
+				for _, yn := range g.Nodes {
+					if as, isAs := yn.N.(*ast.AssignStmt); isAs && len(as.Lhs) == len(as.Rhs) {
+						for i, l := range as.Lhs {
+							if id, isID := unparen(l).(*ast.Ident); isID && info.ObjectOf(id) == o {
+								if gd, dec := listOf(as.Rhs[i], d+1); dec && gd {
+									// valid only if nothing re-slices the list afterwards; stores into index 0 are judged above
+									fs[yn] = true
+								}
+							}
+						}
+					}
+				}
+				dm, _ := g.DominatedByNodes(x, fs)
+				return dm && len(fs) > 0, true
+			}
+			return false, false
+		}
+		good, decided := listOf(rs.Results[0], 0)
+		if !decided {
+			c.Undecided(rule, key, site, "the returned tracestate is not a form whose first member can be read off: "+exprStr(rs.Results[0]))
+			continue
+		}
+		c.Check(good, rule, key, site, "list[0] is the member built from (key, value)", msg)
+	}
+	if n == 0 {
+		c.Undecided(rule, "trace|TraceState.Insert|successful returns", at(tx.M, fn.Pos()), "no `return …, nil` found in Insert")
+	}
 }
